@@ -324,7 +324,7 @@ func c17Gen(rng *gen.Rng, population string) *c17Hist {
 			burst--
 			p = burstPath
 		}
-		render := rng.Pick([]string{"top", "direct", "direct", "direct", "funcparam", "funcglobal", "funcdirect", "nested", "nested", "if", "ifdirect", "for", "fordirect", "shared", "shared", "unused", "elsedirect", "scopes", "reexec", "paramglobal", "untilexists"})
+		render := rng.Pick([]string{"top", "direct", "direct", "direct", "funcparam", "funcglobal", "funcdirect", "nested", "nested", "if", "ifdirect", "for", "fordirect", "shared", "shared", "unused", "elsedirect", "scopes", "reexec", "paramglobal", "untilexists", "nottaken"})
 		if inBurst {
 			render = rng.Pick([]string{"direct", "direct", "top"})
 		}
@@ -344,17 +344,17 @@ func c17Gen(rng *gen.Rng, population string) *c17Hist {
 		switch {
 		case k < 22:
 			h.Ops = append(h.Ops, c17Op{Kind: "write", Spell: spell, Path: p, Content: content(), Render: render, POrigin: origin(p), COrigin: origin(""), Count: count})
-			files[p] = true
+			files[p] = files[p] || render != "nottaken"
 		case k < 30:
 			h.Ops = append(h.Ops, c17Op{Kind: "writeF", Spell: spell, Path: p, Content: content(), Render: render, POrigin: origin(p), COrigin: origin(""), Count: count})
-			files[p] = true
+			files[p] = files[p] || render != "nottaken"
 		case k < 46:
 			h.Ops = append(h.Ops, c17Op{Kind: "append", Spell: spell, Path: p, Content: content(), Render: render, POrigin: origin(p), COrigin: origin(""), Count: count})
-			files[p] = true
+			files[p] = files[p] || render != "nottaken"
 		case k < 54:
 			fl := rng.Chance(50)
 			h.Ops = append(h.Ops, c17Op{Kind: "appendVar", Spell: spell, Path: p, Content: content(), Render: render, POrigin: origin(p), COrigin: origin(""), Flag: fl, Count: count})
-			files[p] = true
+			files[p] = files[p] || render != "nottaken"
 		case k < 74:
 			if !files[p] {
 				// read needs an existing file: write first
@@ -489,7 +489,9 @@ func (h *c17Hist) valid() bool {
 			if op.COrigin == "readof" && !files[op.ReadFrom] {
 				return false
 			}
-			files[op.Path] = true
+			if op.Render != "nottaken" || op.Kind == "ext-create" {
+				files[op.Path] = true
+			}
 		case "ext-delete":
 			delete(files, op.Path)
 		case "read":
@@ -727,6 +729,25 @@ func (h *c17Hist) render(seed uint64) []*c17Segment {
 			}
 			return fmt.Sprintf("func fi%d(q%d string) string {\nv%d := q%d + \"!\"\nw%d := v%d\nreturn w%d\n}\nfunc fn%d(%s) {\nu%d := fi%d(\"k\")\n%sprint(\"<<N>>\" + u%d)\n}\nfn%d(%s)\n",
 				id, id, id, id, id, id, id, id, strings.Join(ps, ", "), id, id, body, id, id, strings.Join(as, ", "))
+		case "nottaken":
+			// the operation stands where control never goes: it must NOT happen (the model skips it)
+			var g strings.Builder
+			for _, p := range params {
+				fmt.Fprintf(&g, "%s := %s\n", p[0], p[1])
+			}
+			switch rng.Intn(5) {
+			case 0:
+				fmt.Fprintf(&g, "if 2 < 1 {\n%s}\n", body)
+			case 1: // an empty branch whose condition holds guards the branches after it
+				fmt.Fprintf(&g, "if 2 < 1 {\n} else if 1 < 2 {\n} else if 1 < 2 {\n%s}\n", body)
+			case 2:
+				fmt.Fprintf(&g, "if 2 < 1 {\n} else if 1 < 2 {\n// nothing to do\n} else if 1 < 2 {\n%s} else if 1 < 2 {\n%s}\n", body, body)
+			case 3:
+				fmt.Fprintf(&g, "switch 2 {\ncase 1:\n%scase 2:\ncase 3:\n%s}\n", body, body)
+			default:
+				fmt.Fprintf(&g, "for it%d := 0; it%d < 3; it%d++ {\nif it%d >= 0 {\nbreak\n}\n%s}\n", id, id, id, id, body)
+			}
+			return g.String()
 		case "untilexists":
 			// the operation is the body of a loop that runs until the file exists: exists() stands in
 			// the loop condition (with the path as the operation spells it) and must see the write
@@ -928,6 +949,8 @@ func (h *c17Hist) render(seed uint64) []*c17Segment {
 			_, wasFile := m.Files[op.Path]
 			if op.Render == "untilexists" && (wasFile || m.Dirs[op.Path]) {
 				// the loop does not run at all
+			} else if op.Render == "nottaken" {
+				// control never reaches the operation
 			} else if isAppend {
 				m.Files[op.Path] = m.Files[op.Path] + strings.Repeat(op.Content+"\n", loopN)
 			} else {
